@@ -94,6 +94,7 @@ def floors(tier: str):
     need = 50 if tier == "quick" else 2000
     f = {f"kind:{g}:{k}": need for g in (4, 5) for k in gens.KINDS[g]}
     f["payload-over-255-bytes"] = 40
+    f["queued-then-flushed"] = 1000
     return f
 
 
@@ -103,7 +104,7 @@ def _case_strategy(gen: int, kind: str):
         st.none(),
         st.tuples(st.sampled_from([(0x80, 0xB0), (0x90, 0xB0), (0xB0, 0x80), (0xB0, 0x90), (0xB0, 0x91), (0x12, 0x34)]),
                   st.integers(0, 255)))
-    return st.tuples(st.lists(st.tuples(msg, hdr), min_size=3, max_size=3), st.integers(0, 255))
+    return st.tuples(st.lists(st.tuples(msg, hdr), min_size=3, max_size=3), st.integers(0, 255), st.sampled_from([False, False, True]))
 
 
 def _nontrivial(messages, hdrs) -> bool:
@@ -119,10 +120,12 @@ def _mk_header(gen: int, to: int, frm: int, pid: int, mid: int, length: int):
     return cls(to_address=to, from_address=frm, packet_id=pid, message_id=mid, message_length=length)
 
 
-def check_case(gen: int, kind: str, items, pid0: int, stats: Stats | None = None):
-    """items: list of (message, None | ((to, frm), pid)).  Raises Violation."""
+def check_case(gen: int, kind: str, items, pid0: int, stats: Stats | None = None, queued: bool = False):
+    """items: list of (message, None | ((to, frm), pid)).  Raises Violation.
+    queued: the three messages are submitted while the link is still down (first attempt refused) and go out together
+    when the retry connects - all of them have been sized before the first one is encoded."""
     reg = registry(gen)
-    case = {"gen": gen, "kind": kind, "pid0": pid0,
+    case = {"gen": gen, "kind": kind, "pid0": pid0, "queued": queued,
             "items": [[ser.to_json(m), None if h is None else [list(h[0]), h[1]]] for m, h in items]}
 
     def bad(key, what):
@@ -130,8 +133,10 @@ def check_case(gen: int, kind: str, items, pid0: int, stats: Stats | None = None
 
     a = SockRig(gen)
     try:
+        if queued:
+            a.net.script.append(("refuse", 0.0))
         a.open()
-        if not a.sock.is_connected:
+        if not a.sock.is_connected and not queued:
             bad("harness", "socket A not connected")
         reg.header_factory._next_packet_id = pid0
         expected_hdr = []
@@ -153,8 +158,11 @@ def check_case(gen: int, kind: str, items, pid0: int, stats: Stats | None = None
                 r = a.send_with_header(_mk_header(gen, to, frm, pid, m.message_id, size), m, sockmod.RETRY_IDEMPOTENT)
             if r[0] != "ok":
                 bad("send-raised", f"send of in-domain message #{k} did not return normally: {r!r}")
+        if queued:
+            a.loop.advance(2.5)
         if len(a.net.conns) != 1 or not a.net.conns[0].alive:
-            bad("send-disturbed", "sending disturbed the connection")
+            bad("send-disturbed", "sending disturbed the connection" if not queued else
+                "the messages accepted while the link was down did not go out on one healthy connection")
         wire = a.net.conns[0].tx_bytes()
     finally:
         a.dispose()
@@ -210,7 +218,8 @@ def check_case(gen: int, kind: str, items, pid0: int, stats: Stats | None = None
         hdrs = [h for _, h in items]
         nt = _nontrivial([m for m, _ in items], hdrs) or len(wire) > 3 * (refproto.header_len(gen) + 2) + 3 * 12
         big = ["payload-over-255-bytes"] if any(len(fr.data) > 255 for fr in pr.frames) else []
-        stats.case(wire.hex(), nt, classes=[f"kind:{gen}:{kind}", "explicit-header" if any(hdrs) else "factory-header"] + big,
+        stats.case(wire.hex() + ("q" if queued else ""), nt,
+                   classes=[f"kind:{gen}:{kind}", "explicit-header" if any(hdrs) else "factory-header"] + big + (["queued-then-flushed"] if queued else []),
                    sample={"gen": gen, "kind": kind, "wire": wire.hex()[:400],
                            "messages": [ser.brief(m, 200) for m, _ in items]})
 
@@ -220,8 +229,8 @@ def run_shard(spec, seed: int, tier: str):
     gen, kind = spec["gen"], spec["kind"]
 
     def body(case):
-        items, pid0 = case
-        stats.guard(check_case, gen, kind, items, pid0, stats)
+        items, pid0, queued = case
+        stats.guard(check_case, gen, kind, items, pid0, stats, queued)
 
     drive(stats, lambda s: given_test(_case_strategy(gen, kind), body, s, spec["n"]), seed + spec["rep"])
     return stats.result()
@@ -230,7 +239,7 @@ def run_shard(spec, seed: int, tier: str):
 def replay(case):
     items = [(ser.from_json(m), None if h is None else ((h[0][0], h[0][1]), h[1])) for m, h in case["items"]]
     try:
-        check_case(case["gen"], case["kind"], items, case["pid0"], None)
+        check_case(case["gen"], case["kind"], items, case["pid0"], None, bool(case.get("queued")))
     except Violation as v:
         return v.as_dict()
     return None
